@@ -1,5 +1,5 @@
 """C34  Permission checks follow the declared access rules."""
-import ast
+import ast, re
 from ..loader import dotted, walk_no_nested, norm, head, calls_in
 from ..q import nodes_calling
 
@@ -61,24 +61,51 @@ def run(ctx):
         used = any(lp.iter.id == v for lp in loops)
         ctx.ob('C34-PROV.fetched-rule-set-is-iterated', hp, v, used, '' if used else 'the rule set `%s` of %s is fetched but no loop iterates it' % (v, E))
     # ---------------------------------------------------------------- GRANT
+    # scenario evaluation on the CFG of has_perm: a grant (`result = True`, or `result = any(<condition> for rule in ...)`) is unreachable / false
+    #   S-groups   when every `user_groups.issuperset(<rule>.groups)` is false,
+    #   S-excluded when every `... in <rule>.entities_to_exclude` is true,
+    # and, for the grants of the object branch (x is neither an entity class nor an attribute), also when the roles or the labels test is false.
+    # The conditions may be enclosing ifs, guard clauses with `continue`, or one conjunction -- only what they decide matters.
+    from ..typestate import scenario_edges, eval_test
     g = cg.cfg(hp)
-    grants = [x for x in g.nodes if x.kind == 'stmt' and isinstance(x.ast, ast.Assign) and any(dotted(t) == 'result' for t in x.ast.targets)
-              and isinstance(x.ast.value, ast.Constant) and x.ast.value.value is True]
-    ctx.floor('C34-GRANT', len(grants), 4, '`result = True` sites')
+    def is_grant(x):
+        if not (x.kind == 'stmt' and isinstance(x.ast, ast.Assign) and any(dotted(t) == 'result' for t in x.ast.targets)): return None
+        v = x.ast.value
+        if isinstance(v, ast.Constant) and v.value is True: return 'const'
+        if isinstance(v, ast.Call) and dotted(v.func) == 'any' and v.args and isinstance(v.args[0], (ast.GeneratorExp, ast.ListComp)): return 'any'
+        return None
+    grants = [x for x in g.nodes if is_grant(x)]
+    ctx.floor('C34-GRANT', len(grants), 3, 'statements that grant a permission')
+    def mk_atom(kind, branch):
+        def atom(text, node):
+            t = text.replace(' ', '')
+            if branch == 'obj' and isinstance(node, ast.Call) and dotted(node.func) == 'isinstance' and dotted(node.args[0]) == 'x' and dotted(node.args[1]) in ('EntityMeta', 'Attribute'): return False
+            if kind == 'groups' and re.fullmatch(r'user_groups\.issuperset\(\w+\.groups\)', t): return False
+            if kind == 'excluded' and isinstance(node, ast.Compare) and len(node.ops) == 1 and (dotted(node.comparators[0]) or '').endswith('.entities_to_exclude'):
+                return isinstance(node.ops[0], ast.In)
+            if kind == 'roles' and re.fullmatch(r'user_roles\.issuperset\(\w+\.roles\)', t): return False
+            if kind == 'labels' and re.fullmatch(r'obj_labels\.issuperset\(\w+\.labels\)', t): return False
+            return None
+        return atom
+    # which grants belong to the object branch: reachable when x is neither class nor attribute
+    obj_live = g.reach([g.entry], edge_ok=scenario_edges(g, hp.node, mk_atom('none', 'obj'), resolve=False))
     for gr in grants:
-        # all tests passed on the way (conjunction): collect the governing If chain of this statement
-        conds = []
-        for s in walk_no_nested(hp.node):
-            if isinstance(s, ast.If):
-                if any(x is gr.ast for b in s.body for x in ast.walk(b)): conds.append(('T', norm(s.test)))
-                elif any(x is gr.ast for b in s.orelse for x in ast.walk(b)): conds.append(('F', norm(s.test)))
-        txt = ' ; '.join('%s:%s' % c for c in conds)
-        has_groups = 'user_groups.issuperset(' in txt
-        ok = has_groups and ('entities_to_exclude' in txt)
-        in_obj_branch = 'user_roles.issuperset' in txt or 'obj_labels.issuperset' in txt
-        if in_obj_branch: ok = ok and 'user_roles.issuperset(rule.roles)' in txt and 'obj_labels.issuperset(rule.labels)' in txt
+        in_obj = gr.id in obj_live and is_grant(gr) == 'const' and any(isinstance(x_, ast.Name) and x_.id in ('user_roles', 'obj_labels') for t_ in g.nodes if t_.kind == 'test' and gr.id in g.reach([t_]) for x_ in ast.walk(t_.ast)) \
+            and gr.id not in g.reach([g.entry], edge_ok=scenario_edges(g, hp.node, lambda text, node: True if (isinstance(node, ast.Call) and dotted(node.func) == 'isinstance') else None, resolve=False))
+        kinds = ['groups', 'excluded'] + (['roles', 'labels'] if in_obj else [])
+        failing = []
+        for kind in kinds:
+            atom = mk_atom(kind, 'obj' if in_obj else 'any')
+            if is_grant(gr) == 'any':
+                gen = gr.ast.value.args[0]
+                conds = [gen.elt] + [c for gn in gen.generators for c in gn.ifs]
+                v = [eval_test(c, atom) for c in conds]
+                if not any(x_ is False for x_ in v): failing.append(kind)
+            else:
+                if gr.id in g.reach([g.entry], edge_ok=scenario_edges(g, hp.node, atom, resolve=False)): failing.append(kind)
+        ok = not failing
         ctx.ob('C34-GRANT.granted-only-under-groups-and-not-excluded', hp, gr.ast, ok,
-               '' if ok else 'permission is granted at line %d without testing %s' % (gr.lineno, 'groups/exclusions' if not in_obj_branch else 'groups, roles, labels and exclusions'), node=gr.ast)
+               '' if ok else 'the permission granted at line %d does not depend on: %s (it is still granted when that test fails)' % (gr.lineno, ', '.join(failing)), node=gr.ast)
     cv = repo.fn(CORE, 'can_view')
     rets = [norm(s.value) for s in walk_no_nested(cv.node) if isinstance(s, ast.Return)]
     ok = rets == ["has_perm(user, 'view', x) or has_perm(user, 'edit', x)"]
